@@ -481,8 +481,6 @@ def enumerate_stacks(world, shallow, maxstack):
         pool = names if k <= shallow else sorted(world.reduced)
         for st in itertools.permutations(pool, k):
             yield st
-        if k > shallow:
-            continue
 
 
 def enumerate_cases(world, opts, shallow, maxstack):
@@ -651,11 +649,11 @@ class Findings(object):
     def __init__(self, ctx, world, defects):
         self.ctx, self.world, self.defects = ctx, world, defects
         self.by_cause = {}
-        self.multi = []
 
     def add(self, cause, names, o, text, kind='picture', rank=1):
         k = (kind, cause)
-        size = (rank, len(names), len(o['zones']), o['res'] != 'fine')
+        plain = sum({'o': 0, 'r': 1, 'p': 2, 'k': 3}.get(n[0], 4) for n in names)      # prefer the plainest layers as example
+        size = (rank, len(names), len(o['zones']), o['res'] != 'fine', plain)
         cur = self.by_cause.get(k)
         if cur is None or size < cur[0]:
             self.by_cause[k] = (size, names, o, text, (cur[4] if cur else 0) + 1)
@@ -895,6 +893,10 @@ def exhaustive_world(ctx, world, defects, base, shallow, maxstack, machine_shall
             if 'clip_bbox' in defects and world.cov_type == 'bbox':
                 need.append('MergeRaise')
             vacuity_guard(world.name, r, need)
+            nsub = sum(1 for _ in enumerate_cases(world, opts, machine_shallow, machine_max))
+            if r.coverage.get('Submit', (0, 0))[0] != nsub:
+                raise tlc.MachineryError('TLC submitted %s requests, the harness enumerates %d for the same constants' % (
+                    r.coverage.get('Submit'), nsub))
             ctx.add_tlc('Compose/' + world.name, r)
         tab = tables_parallel(ctx, world.name, world, cases, defects)
         obs = [x for ch in pending.get(3000) for x in ch]
